@@ -23,6 +23,9 @@ func blame(vs []Verdict, p Program, r *Result) int {
 	if r.Panic != "" && r.PanicOp >= 0 && r.PanicOp < len(p.Ops) {
 		return r.PanicOp
 	}
+	if r.Panic != "" {
+		return -1
+	}
 	for _, v := range vs {
 		if opTimeClause(v.Clause) {
 			var i int
